@@ -10,6 +10,7 @@ import (
 	"flag"
 	"fmt"
 	"os"
+	"runtime"
 	"sort"
 	"strings"
 	"time"
@@ -115,6 +116,7 @@ func main() {
 	}
 	c.noEnum = *noenum
 	silenceLogs()
+	go hangWatch()
 	if c.replay != "" {
 		runReplay(c)
 	} else {
@@ -124,4 +126,53 @@ func main() {
 		c.emitStats()
 	}
 	c.w.Flush()
+}
+
+// hangWatch: the scripts of the scenarios call into the code under test from the main goroutine (lookups, hooks that take
+// the client's or the manager's lock). When a change under test leaves a lock taken for ever, such a call never comes back
+// and no per-scenario watchdog may be around it. Every ten seconds the main goroutine's stack is sampled: if it sits in a
+// lock wait INSIDE kitex-contrib/xds with the same frames six times in a row (a minute), the process reports it in the
+// shape of a Go fatal error (bin/check turns that into a violation with this report as its replay) and exits.
+func hangWatch() {
+	last, same := "", 0
+	for {
+		time.Sleep(10 * time.Second)
+		buf := make([]byte, 1<<20)
+		st := string(buf[:runtime.Stack(buf, true)])
+		var g1 string
+		for _, g := range strings.Split(st, "\n\n") {
+			if strings.HasPrefix(g, "goroutine 1 [") {
+				g1 = g
+				break
+			}
+		}
+		head := g1
+		if i := strings.IndexByte(g1, '\n'); i >= 0 {
+			head = g1[:i]
+		}
+		waiting := strings.Contains(head, "sync.") || strings.Contains(head, "semacquire")
+		inRepo := false
+		var frames []string
+		for _, l := range strings.Split(g1, "\n") {
+			if strings.HasPrefix(l, "github.com/kitex-contrib/xds/") {
+				inRepo = true
+			}
+			if !strings.HasPrefix(l, "\t") && !strings.HasPrefix(l, "goroutine ") {
+				if i := strings.IndexByte(l, '('); i > 0 {
+					frames = append(frames, l[:i])
+				}
+			}
+		}
+		key := strings.Join(frames, ";")
+		if waiting && inRepo && key == last {
+			same++
+		} else {
+			same = 0
+		}
+		last = key
+		if same >= 5 {
+			fmt.Fprintf(os.Stderr, "fatal error: verif-hang: the scenario script has been blocked in a lock wait inside the code under test for a minute\n\n%s\n\n%s\n", g1, st)
+			os.Exit(3)
+		}
+	}
 }
